@@ -36,14 +36,14 @@ theorem convertAll_count (P : PhysConst K) (T : Transc K) :
 
 /-- PHOTLAM → count on arrays: each flux times (bin width × area) -/
 theorem convertFlux_count (P : PhysConst K) (T : Transc K) (w f e bw : List K) (a : K)
-    (he : binEdges w = .ok e) (hw : binWidths e = .ok bw) (hbw : bw.length = w.length)
+    (hv : validateWavelengths w = .ok ()) (he : binEdges w = .ok e) (hw : binWidths e = .ok bw) (hbw : bw.length = w.length)
     (hlen : w.length = f.length) :
     convertFlux P T w f .photlam .count (some a) none = .ok (mulFactors f (bw.map (· * a))) := by
   unfold convertFlux
   have hne : (FluxUnit.photlam : FluxUnit K) ≠ .count := by intro h; cases h
   rw [if_neg hne]
   have hcf : countFactorsFor w (.photlam : FluxUnit K) .count (some a) = .ok (some (bw.map (· * a))) := by
-    simp [countFactorsFor, FluxUnit.needsArea, countFactors, he, hw, bind, Except.bind, pure, Except.pure,
+    simp [countFactorsFor, FluxUnit.needsArea, countFactors, calcBinEdges_eq w e hv he, hw, bind, Except.bind, pure, Except.pure,
       Except.map]
   rw [hcf]
   show convertAll P T .photlam .count (mkSamples w (some (bw.map (· * a))) none) f = _
